@@ -206,8 +206,7 @@ def parse_header(data: bytes) -> dict:
     f = struct.unpack_from(HDR_FMT, data, 0)
     (nonce, pad0, sig1, major, minor, flags, image_blocks, first_boot_tag_block, first_section_id,
      cert_offset, header_blocks, key_blob_block, key_blob_block_count, max_mac_count, sig2, ts) = f[:16]
-    ver = f[16:28]
-    build, pad1 = f[28], f[29]
+    build, pad1 = f[28], f[29]  # f[16:28] = version words, decoded from the raw bytes below
     if sig1 != b"STMP":
         raise RomReject("header", f"signature 1 {sig1!r}")
     if sig2 != b"sgtl":
@@ -221,7 +220,6 @@ def parse_header(data: bytes) -> dict:
     # versions: 12 u16 starting right after the u64 timestamp
     voff = struct.calcsize("<16s4s4s2BH4I4H4sQ")
     comps = [bytes(data[voff + 2 * i: voff + 2 * i + 2]) for i in range(12)]
-    del ver
     product = ".".join(_bcd(comps[i]) for i in (0, 2, 4))
     component = ".".join(_bcd(comps[i]) for i in (6, 8, 10))
     return {
